@@ -132,7 +132,7 @@ def classes():
         """Emits exactly when told to; never beyond credit; records request/cancel from the library."""
 
         def __init__(self, world, side, uid, dirn, tag, els, end, none_for_empty=False, cancel_raises=False,
-                     idx0=0):
+                     idx0=0, raise_in=None):
             self.world, self.side, self.uid, self.dirn, self.tag = world, side, uid, dirn, tag
             self.els = list(els)
             self.end_mode = end  # 'flag' | 'sep' | 'error' | 'none'
@@ -144,11 +144,15 @@ def classes():
             self.cancelled = False
             self.none_for_empty = none_for_empty
             self.cancel_raises = cancel_raises
+            self.raise_in = raise_in
 
         def ev(self, kind, **kw):
             return self.world.ev(self.side, kind, uid=self.uid, dir=self.dirn, **kw)
 
         def subscribe(self, subscriber):
+            if self.raise_in == 'subscribe':
+                self.ev('pub_raises', where='subscribe')
+                raise AppError('publisher %d raises in subscribe' % self.uid)
             self.sub = subscriber
             self.ev('pub_subscribed')
             subscriber.on_subscribe(self)
@@ -157,6 +161,10 @@ def classes():
             if self.world.frozen:
                 return
             self.ev('pub_request', n=n)
+            if self.raise_in == 'request':
+                self.ev('pub_raises', where='request')
+                self.done = True
+                raise AppError('publisher %d raises in request' % self.uid)
             self.credit = min(MAXN, self.credit + n)
 
         def cancel(self):
